@@ -132,6 +132,8 @@ func runC01(c *engine.Ctx, tier string) {
 	c.Guard(engine.Guard{ID: "C01.7c", Pkg: pkgTransactionCtl, Min: 2, Sel: engine.Sel{Call: stPropCreate},
 		Require: "errors.IsNotFound(err(@EXP)) || errors.IsNotFound(err(@EXPR))",
 		Why:     "a proposal is created for the loop's own target, under the id (target, transaction index), only when it does not exist yet (re-entrancy)"})
+	// every named target gets a proposal that carries its share of the change, and nothing else
+	proposalRecords(c, "C01.10", "")
 }
 
 // onePerTarget: in the loop over the change's targets every fall-through path of the body appends
